@@ -7,6 +7,7 @@ func init() {
 		{Run: "TestDecodeHostile", Quick: 60000, Thorough: 3000000, QShards: 8, TShards: 16, MemMB: 8192},
 		{Run: "TestDecodeService", Quick: 12000, Thorough: 400000, QShards: 4, TShards: 8, MemMB: 8192},
 		{Run: "TestTowers", Quick: 40, Thorough: 400, QShards: 2, TShards: 4, MemMB: 8192},
+		{Run: "TestTowerLimit", Kind: "test", QTimeout: 3 * time.Minute},
 		{Run: "FuzzDecodeAny", Kind: "fuzz", FuzzTime: 4 * time.Minute},
 	}}
 }
